@@ -34,7 +34,17 @@ int main(void){
   SYM_TEXT(t, (size_t)n, "t");
   for (i = 0; i < n; i++){ uk_assume(CHV(t[i]) >= 1 && CHV(t[i]) <= 255); cin[i] = CHV(t[i]); }
   uk_readonly(t, (size_t)n * sizeof(CH)); uk_note_text("query", t, n, sizeof(CH));
+  mm_armed = 1;
   rc = U(uriDissectQueryMallocExMm)(&list, &cnt, t, t + n, p2s ? URI_TRUE : URI_FALSE, br == 0 ? URI_BR_TO_LF : br == 1 ? URI_BR_TO_CRLF : br == 2 ? URI_BR_TO_CR : URI_BR_DONT_TOUCH, &mm);
+  mm_armed = 0;
+#ifdef FAILING
+  if (mm_failed){
+    uk_assert(rc == URI_ERROR_MALLOC, "C14: dissecting with a failed allocation returns URI_ERROR_MALLOC");
+    uk_assert(uk_live() == 0, "C14: nothing stays allocated after a failed dissection");
+    uk_assert(cnt == 0, "C14: item count reset after a failed dissection");
+    uk_cover("alloc-failure-injected"); return 0;
+  }
+#endif
   uk_assert(rc == URI_SUCCESS, "C17: dissecting succeeds");
   if (rc) return 0;
   /* reference: pieces between '&'; first '=' separates key and value; pieces with empty key and no value vanish */
